@@ -4,6 +4,8 @@ import (
 	"context"
 	"errors"
 	"fmt"
+	"runtime"
+	"strings"
 	"sync"
 	"sync/atomic"
 	"time"
@@ -148,7 +150,8 @@ type attemptState struct {
 	streamErr  error
 	streamDone chan struct{}
 	baseline   map[int]bool
-	fellBack   bool // the harness had to cancel because Stream did not end on its own
+	fellBack   bool   // the harness had to cancel because Stream did not end on its own
+	panicked   string // non-empty: Stream panicked with this value
 	mu         sync.Mutex
 }
 
@@ -347,9 +350,19 @@ func (ss *session) run(at attempt) *attemptState {
 	}
 	go func() {
 		atomic.StoreInt64(&st.streamGID, int64(sched.Self()))
+		defer func() {
+			// a panic on the caller's goroutine (parser, decoders) must not take the test process
+			// down: it is recorded and every check that looks at this attempt reports it
+			if r := recover(); r != nil {
+				buf := make([]byte, 4096)
+				buf = buf[:runtime.Stack(buf, false)]
+				st.panicked = fmt.Sprintf("%v", r)
+				st.streamErr = fmt.Errorf("PANIC inside Stream: %v\n%s", r, firstLibFrames(string(buf)))
+			}
+			atomic.StoreInt32(&st.returned, 1)
+			close(st.streamDone)
+		}()
 		st.streamErr = ss.s.Stream(ctx, handler)
-		atomic.StoreInt32(&st.returned, 1)
-		close(st.streamDone)
 	}()
 	// Fallback only: if Stream does not end on its own a short while after the
 	// script was written out, cancel and release.  Checks other than C05/C06 do
@@ -389,4 +402,26 @@ func (ss *session) run(at attempt) *attemptState {
 // go away (hygiene between cases; not a verdict).
 func (st *attemptState) drainLib() {
 	sched.WaitNoLib(st.baseline, 200*time.Millisecond)
+}
+
+// firstLibFrames extracts the library frames of a stack dump (for messages).
+func firstLibFrames(stack string) string {
+	var out []string
+	for _, line := range strings.Split(stack, "\n") {
+		if strings.Contains(line, "Breeze0806/gobinlog") && !strings.HasPrefix(line, "\t") {
+			out = append(out, strings.TrimSpace(line))
+			if len(out) >= 4 {
+				break
+			}
+		}
+	}
+	return strings.Join(out, " <- ")
+}
+
+// panicErr reports a panic that escaped from Stream during this attempt.
+func (a *attemptState) panicErr() error {
+	if a.panicked != "" {
+		return a.streamErr
+	}
+	return nil
 }
